@@ -5,7 +5,9 @@ From SV Require Model.Retry Model.Fiber Model.E2EAttempts Model.E2ESpec Proofs.E
   Proofs.E2EResult_proofs.
 Open Scope nat_scope.
 
-(* can_be_ignored is exactly the "ignorable" class of the specification, for every variant *)
+(* DEFINITIONAL / regression anchor: can_be_ignored equals spec_transient, which is the same table written
+   positively (the property text does not fix the ignorable class).  Also definitional glue below:
+   C13_gate_cases, C13_e2e_gate_model, C13_e2e_open. *)
 Theorem C13_ignorable_table : forall r, can_be_ignored r = is_ignorable (Some r).
 Proof. exact can_be_ignored_spec. Qed.
 
